@@ -1027,6 +1027,18 @@ func runC20QueueGauges(c *Ctx) {
 		}
 		return nil
 	}
+	isGaugeVec := func(t types.Type) bool { return strings.HasSuffix(typeKey(t), "prometheus.GaugeVec") }
+	isClearCall := func(in ssa.Instruction) bool {
+		cc, ok := in.(ssa.CallInstruction)
+		if !ok {
+			return false
+		}
+		cal := calleeOf(cc)
+		return cal != nil && (cal.Name() == "DeletePartialMatch" || cal.Name() == "DeleteLabelValues" || cal.Name() == "Reset") && strings.Contains(funcPkgPath(cal), "prometheus")
+	}
+	clears := c.P.performs(isClearCall, 2)
+	// (a) every write is preceded by the clearing step, whatever form the writes take (one statement per vector, a loop
+	// over the vectors, a helper)
 	n := 0
 	for _, h := range c.P.deepFind(f, func(in ssa.Instruction) bool {
 		cc, ok := in.(ssa.CallInstruction)
@@ -1034,25 +1046,75 @@ func runC20QueueGauges(c *Ctx) {
 			return false
 		}
 		cal := calleeOf(cc)
-		return cal != nil && cal.Name() == "WithLabelValues" && len(cc.Common().Args) > 0 && globalOf(cc.Common().Args[0]) != nil
+		return cal != nil && cal.Name() == "WithLabelValues" && strings.Contains(funcPkgPath(cal), "prometheus")
 	}, 1) {
 		site := h.In
 		if len(h.Chain) > 0 {
 			site = h.Chain[0]
 		}
-		g := globalOf(h.In.(ssa.CallInstruction).Common().Args[0])
 		n++
-		clears := c.P.performs(func(in ssa.Instruction) bool {
-			cc, ok := in.(ssa.CallInstruction)
-			if !ok {
-				return false
-			}
-			cal := calleeOf(cc)
-			return cal != nil && (cal.Name() == "DeletePartialMatch" || cal.Name() == "DeleteLabelValues" || cal.Name() == "Reset") && len(cc.Common().Args) > 0 && globalOf(cc.Common().Args[0]) == g
-		}, 2)
 		_, path, found := reachAvoiding([]cfgPos{entryPos(f)}, func(in ssa.Instruction) bool { return in == site }, clears, nil)
-		c.Check(!found, "O16", "MPT", fmt.Sprintf("%s: %s is cleared for the queue before it is set", funcKey(f), g.Name()), instrPos(site), "DeletePartialMatch on the same vector on every path",
-			"the gauge "+g.Name()+" is set without the queue's previous series having been removed ("+pathStr(path)+"): after a change of the queue's metric labels the old series stays and the queue is reported twice, once with stale values")
+		c.Check(!found, "O16", "MPT", funcKey(f)+": the queue's previous series are cleared before a gauge is set", instrPos(site), "a clearing call (DeletePartialMatch) on every path to the write",
+			"a queue gauge is set without the queue's previous series having been removed ("+pathStr(path)+"): after a change of the queue's metric labels the old series stays and the queue is reported twice, once with stale values")
 	}
-	c.Floor("O16", "MPT gauge writes of SetQueueMetrics", n, 7)
+	// (b) the clearing step covers every vector that is written: the gauge vectors referenced by SetQueueMetrics (and its
+	// helpers) are all referenced by the functions that do the clearing
+	vecsIn := func(fns []*ssa.Function) map[*ssa.Global]bool {
+		out := map[*ssa.Global]bool{}
+		for _, fn := range fns {
+			for _, b := range fn.Blocks {
+				for _, in := range b.Instrs {
+					for _, op := range in.Operands(nil) {
+						if g, ok := (*op).(*ssa.Global); ok {
+							if pt, isP := g.Type().(*types.Pointer); isP && isGaugeVec(pt.Elem()) {
+								out[g] = true
+							}
+						}
+					}
+				}
+			}
+		}
+		return out
+	}
+	var clearFns, setFns []*ssa.Function
+	seenFn := map[*ssa.Function]bool{}
+	var collect func(fn *ssa.Function, d int)
+	collect = func(fn *ssa.Function, d int) {
+		if seenFn[fn] || d > 2 {
+			return
+		}
+		seenFn[fn] = true
+		doesClear := len(instrsIn(fn, isClearCall)) > 0
+		if doesClear && fn != f {
+			clearFns = append(clearFns, fn)
+		} else {
+			setFns = append(setFns, fn)
+		}
+		for _, in := range instrsIn(fn, func(in ssa.Instruction) bool { _, ok := in.(ssa.CallInstruction); return ok }) {
+			if cal := in.(ssa.CallInstruction).Common().StaticCallee(); cal != nil && len(cal.Blocks) > 0 && hasModPrefix(cal) {
+				collect(cal, d+1)
+			}
+		}
+	}
+	collect(f, 0)
+	written, cleared := vecsIn(setFns), vecsIn(clearFns)
+	if len(instrsIn(f, isClearCall)) > 0 {
+		// the clearing is written out in SetQueueMetrics itself: the receivers of its clearing calls
+		for _, in := range instrsIn(f, isClearCall) {
+			if g := globalOf(in.(ssa.CallInstruction).Common().Args[0]); g != nil {
+				cleared[g] = true
+			}
+		}
+	}
+	var missing []string
+	for g := range written {
+		if !cleared[g] {
+			missing = append(missing, g.Name())
+		}
+	}
+	sort.Strings(missing)
+	c.Check(len(missing) == 0, "O16", "DUAL", funcKey(f)+": every gauge vector that is set is also cleared", f.Pos(), fmt.Sprintf("%d vectors set, %d cleared", len(written), len(cleared)),
+		"gauge vectors that are set for a queue but not cleared for it: "+strings.Join(missing, ", ")+" — their series under the queue's previous metric labels stay for ever")
+	c.Floor("O16", "DUAL gauge vectors set for a queue", len(written), 7)
+	c.Floor("O16", "MPT gauge writes of SetQueueMetrics", n, 1)
 }
